@@ -1018,7 +1018,7 @@ def run_once(F, fid, assignment, base, summaries):
     return it.stacks[0][0].count, o, it
 
 
-def analyse(F, fid, summaries, max_runs=20000):
+def analyse(F, fid, summaries, max_runs=20000, pairwise=False):
     """Enumerate the presence domain. -> dict(status, runs, top_counts, problems[(rule,msg,state)], containers, atoms)"""
     discovered = {}
     runs = [({}, 0), ({}, 1)]
@@ -1026,7 +1026,24 @@ def analyse(F, fid, summaries, max_runs=20000):
     res = {"status": "ok", "runs": 0, "top": set(), "problems": {}, "containers": [], "atoms": {}, "notes": set(), "tags": set()}
     groups_done = set()
     sel_done = False
-    while runs:
+    while True:
+        if not runs and pairwise and not res.get("pairwise") and res["status"] == "ok":
+            # thorough: every pair of atom groups crossed exhaustively (interactions between two fields), both baselines
+            byg2 = defaultdict(list)
+            for a in discovered:
+                byg2[group_of(a)].append(a)
+            gs = sorted(g for g in byg2 if not g.startswith("sel:"))
+            for i in range(len(gs)):
+                for j in range(i + 1, len(gs)):
+                    atoms = sorted(byg2[gs[i]]) + sorted(byg2[gs[j]])
+                    if len(atoms) > 8:
+                        continue
+                    for combo in itertools.product(*[discovered[a] for a in atoms]):
+                        for b in (0, 1):
+                            runs.append((dict(zip(atoms, combo)), b))
+            res["pairwise"] = True
+        if not runs:
+            break
         assignment, base = runs.pop()
         key = (tuple(sorted(assignment.items())), base)
         if key in done:
